@@ -104,6 +104,20 @@ def opNames (op : String) (j : Json) : Except String Json := do
     | .ok cs => return Json.mkObj [("ok", true), ("goType", str goName),
         ("consts", Json.arr (cs.map fun c => Json.arr #[str c.goName, str c.gqlName]).toArray)]
     | .conflict a b n => return Json.mkObj [("ok", false), ("goType", str goName), ("val", str a), ("other", str b), ("goName", str n)]
+  | "names.enums" =>
+    let cfg ← getCasingCfg j
+    let ds ← (← getArr j "enums").toList.mapM fun e => do
+      let gql ← asciiName (← getStr e "gqlName")
+      let goName ← match e.getObjValAs? String "goName" with
+        | .ok s => asciiName s
+        | .error _ => pure (Names.enumGoTypeName cfg gql)
+      let vals ← (← getArr e "values").toList.mapM fun v => do asciiName (← v.getStr?)
+      pure (⟨goName, gql, vals⟩ : Names.EnumDecl)
+    match Names.convertEnums cfg ds with
+    | .ok css => return Json.mkObj [("res", "ok"),
+        ("consts", Json.arr (css.map fun cs => Json.arr (cs.map fun c => Json.arr #[str c.goName, str c.gqlName]).toArray).toArray)]
+    | .conflict k a b n => return Json.mkObj [("res", "conflict"), ("enum", k), ("val", str a), ("other", str b), ("goName", str n)]
+    | .crossConflict k a n => return Json.mkObj [("res", "cross"), ("enum", k), ("val", str a), ("goName", str n)]
   | "names.fn" =>
     let s ← asciiName (← getStr j "s")
     let r ← match (← getStr j "fn") with
